@@ -129,7 +129,9 @@ func scalingProgram(r *core.Rng) ([]ast.Node, string) {
 	}
 	bodyStmt := func() ast.Node {
 		// every statement form as the last statement of the loop body
-		switch r.Intn(17) {
+		switch r.Intn(18) {
+		case 17: // a yield nobody consumes, its operand computed
+			return ast.Yield{X: []ast.Node{ast.Binary{Op: "*", L: zi, R: ast.IntLit{V: 2}}, ast.ArrayLit{Elems: []ast.Node{zi}}, ast.Call{Fn: "toa", Args: []ast.Node{zi}}, zi}[r.Intn(4)]}
 		case 13, 14, 15, 16:
 			return guard(r.Range(1, 3))
 		case 9: // if/else with exactly one (never taken) returning branch, discarded
@@ -149,6 +151,14 @@ func scalingProgram(r *core.Rng) ([]ast.Node, string) {
 		case 3:
 			return ast.If{Cond: g.Expr(gen.Bool, 1), Then: g.Expr(gen.Int, 1), Else: g.Expr(gen.Int, 1)}
 		case 4:
+			if r.Chance(1, 3) { // zipped with an iterator expression that makes no call: the loop runs zero times
+				free := []ast.Node{ast.IntLit{V: 7}, ast.Name{N: "zi"}, ast.ArrayLit{Elems: []ast.Node{ast.IntLit{V: 1}, ast.IntLit{V: 2}}}, ast.Binary{Op: "+", L: ast.Name{N: "zi"}, R: ast.IntLit{V: 1}}}[r.Intn(4)]
+				iters := []ast.Node{ast.Call{Fn: "fromto", Args: []ast.Node{ast.IntLit{V: 0}, ast.IntLit{V: int64(r.Range(1, 3))}}}, free}
+				if r.Chance(1, 3) {
+					iters = append(iters, ast.Call{Fn: "elems", Args: []ast.Node{ast.StrLit{V: "ab"}}})
+				}
+				return ast.For{Vars: []string{"zz", "zy", "zx"}[:len(iters)], Iters: iters, Body: g.Expr(gen.Int, 1)}
+			}
 			return ast.For{Vars: []string{"zz"}, Iters: []ast.Node{ast.Call{Fn: "fromto", Args: []ast.Node{ast.IntLit{V: 0}, ast.IntLit{V: int64(r.Intn(3))}}}}, Body: g.Expr(gen.Int, 1)}
 		case 5:
 			return ast.While{Cond: ast.BoolLit{V: false}, Body: ast.IntLit{V: 1}}
@@ -312,7 +322,7 @@ func c09Residue(ctx *core.Ctx, idx int) core.Result {
 func init() {
 	register(&core.Property{
 		ID:          "C09",
-		Rule:        "(1) residue: typed sessions (as in C01) and the directed corpus in REPL and script mode, (sp, frames, closures, live contexts) compared before/after every statement (after a failing statement all must be 0 and the main instruction pointer at the end of the code); (2) N-scaling: programs whose last statement is a loop of N iterations — while, for, zipped for, nested for, for inside a function, loop over a generator that itself loops — with every statement form as the last statement of the body (expression, if with computed and with constant body, if/else, inner for, inner while, call, array literal, assignment), run with N = 3, 30, 300; max stack pointer per memory kind and max live contexts at back-edges must not depend on N. non-trivial = >= 25 reference steps with a call or loop (residue) / >= 100 back-edges sampled (scaling).",
+		Rule:        "(1) residue: typed sessions (as in C01) and the directed corpus in REPL and script mode, (sp, frames, closures, live contexts) compared before/after every statement (after a failing statement all must be 0 and the main instruction pointer at the end of the code); (2) N-scaling: programs whose last statement is a loop of N iterations — while, for, zipped for, nested for, for inside a function, loop over a generator that itself loops — with every statement form as the last statement of the body (expression, if with computed and with constant body, if/else, inner for, inner zipped for with a call-free iterator expression, inner while, call, array literal, assignment, a yield without consumer), run with N = 3, 30, 300; max stack pointer per memory kind and max live contexts at back-edges must not depend on N. non-trivial = >= 25 reference steps with a call or loop (residue) / >= 100 back-edges sampled (scaling).",
 		Assumptions: []string{"the operand stack holds fixed-size value headers, so live data size does not enter the stack pointer"},
 		Families: []core.Family{
 			{Name: "corpus", Count: func(string) int { return len(corpusSessions()) * 2 * len(stressModes) }, Run: func(_ *core.Ctx, idx int) core.Result { return corpusCase("C09", idx, true) }},
